@@ -101,6 +101,8 @@ class Bench:
             dt = time.time() - t
             m = s.model() if r == z3.sat else None
         self.n_queries += 1
+        if dt > 5 or os.environ.get("VERIF_VERBOSE"):
+            log("[solve] %-50s %-7s %.1fs" % (name, r, dt))
         self.rep.query(name, str(r), dt)
         if r == z3.unknown:
             self.rep.inconclusive.append("solver returned unknown for %s (%s)" % (name, s.reason_unknown()))
